@@ -102,6 +102,35 @@ def run(tier, seed, open_findings):
                     except Exception as e: outc = 'OTHER:' + type(e).__name__
                     if outc == 'built' or outc.startswith('OTHER') or _events:
                         sfails.append(dict(case=dict(payload=pname, role=role, cls=cls.__name__), observed=dict(outcome=outc, secret_opened=bool(_events)), required='refused, nothing fetched'))
+        # schema documents reached through an xsi:schemaLocation hint of the instance (root or inner element; a new namespace or one already loaded), use_location_hints on
+        for pname in ('internal-unused', 'external', 'parameter', 'ext-subset'):
+            dtd = payloads(secret, 10)[pname].split('<r>')[0].replace('DOCTYPE r', 'DOCTYPE xs:schema')
+            hin = os.path.join(root, 'hinted-new.xsd'); open(hin, 'w').write(dtd + f'<xs:schema {XS} targetNamespace="urn:h"><xs:element name="h"/></xs:schema>')
+            hsame = os.path.join(root, 'hinted-same.xsd'); open(hsame, 'w').write(dtd + f'<xs:schema {XS} targetNamespace="urn:m"><xs:element name="late"/></xs:schema>')
+            hmain = os.path.join(root, 'hmain.xsd')
+            open(hmain, 'w').write(f'<xs:schema {XS} targetNamespace="urn:m" xmlns:m="urn:m" elementFormDefault="qualified"><xs:element name="r"><xs:complexType><xs:sequence>'
+                                   f'<xs:element name="in" minOccurs="0"><xs:complexType><xs:sequence><xs:any minOccurs="0" maxOccurs="unbounded" processContents="lax"/></xs:sequence></xs:complexType></xs:element>'
+                                   f'<xs:any namespace="##other" minOccurs="0" maxOccurs="unbounded" processContents="lax"/></xs:sequence></xs:complexType></xs:element></xs:schema>')
+            XSI = 'xmlns:xsi="http://www.w3.org/2001/XMLSchema-instance"'
+            docs = {'root-new-namespace': f'<m:r xmlns:m="urn:m" xmlns:h="urn:h" {XSI} xsi:schemaLocation="urn:h {hin}"><h:h/></m:r>',
+                    'inner-new-namespace': f'<m:r xmlns:m="urn:m" xmlns:h="urn:h" {XSI}><m:in xsi:schemaLocation="urn:h {hin}"><h:h/></m:in></m:r>',
+                    'inner-same-namespace': f'<m:r xmlns:m="urn:m" {XSI}><m:in xsi:schemaLocation="urn:m {hsame}"><m:late/></m:in></m:r>'}
+            for place, doc in docs.items():
+                for cls in (xmlschema.XMLSchema10, xmlschema.XMLSchema11):
+                    for api in ('iter_errors', 'is_valid', 'decode'):
+                        m += 1; _events.clear()
+                        try:
+                            sch = cls(hmain, defuse='always')
+                            r_ = getattr(sch, api)(doc, use_location_hints=True) if api != 'decode' else sch.decode(doc, use_location_hints=True, validation='lax')
+                            if api == 'iter_errors': list(r_)
+                            outc = 'processed'
+                        except XMLResourceForbidden: outc = 'forbidden'
+                        except XMLSchemaException as e: outc = 'libexc:' + type(e).__name__
+                        except Exception as e: outc = 'OTHER:' + type(e).__name__
+                        # a hint on the ROOT goes through the import machinery, which treats a refused location as an access failure and goes on without it (as for xs:import):
+                        # there the clause is only that nothing is expanded or fetched; a hint met DURING validation is refused with the error
+                        if (outc != 'forbidden' and not place.startswith('root')) or outc.startswith('OTHER') or _events:
+                            sfails.append(dict(case=dict(payload=pname, role='hinted-schema:' + place, cls=cls.__name__, api=api), observed=dict(outcome=outc, secret_opened=bool(_events)), required='refused with the forbidden-resource error, nothing fetched'))
         # document-level API: the schema is built by the API from a source; the caller's defuse mode must govern that schema too
         for pname in ('internal-unused', 'external', 'ext-subset'):
             dtd = payloads(secret, 10)[pname].split('<r>')[0]
